@@ -59,7 +59,9 @@ func Walk(v Visitor, node Node) {
 	switch n := node.(type) {
 	case *Field:
 		walkIdentList(v, n.Names)
-		Walk(v, n.Type)
+		if n.Type != nil {
+			Walk(v, n.Type)
+		}
 		if n.Tag != nil {
 			Walk(v, n.Tag)
 		}
